@@ -202,6 +202,20 @@ static void check_json(const std::string& t, Rng& r, bool thorough_small) {
     }
 }
 
+// ------------------------------------------------------------------ streams of several JSON values read with read_next() until eof()
+template <class Reader> static Outcome multi_loop(Reader& rd, Recorder& rec) {
+    Outcome o; std::error_code ec; int n = 0;
+    while (!rd.eof() && n < 60) { rd.read_next(ec); if (ec) break; rec.add("|"); ++n; }
+    o.status = ec_name(ec); o.ev = std::move(rec.ev); return norm(o);
+}
+static Outcome multi_ref(const std::string& t) { Recorder rec; json_string_reader rd(t, rec, g_jopts); return multi_loop(rd, rec); }
+static Outcome multi_stream(const std::string& t, size_t k) { Recorder rec; std::istringstream is(t); basic_json_reader<char, stream_source<char>> rd(stream_source<char>(is, k), rec, g_jopts); return multi_loop(rd, rec); }
+static void check_multi(const std::string& t, Rng& r, bool all_k) {
+    std::string hx = hex(t); Outcome ref = multi_ref(t);
+    H.count_(ref.status == "ok" ? "json.multi_value_inputs_ok" : "json.multi_value_inputs_rejected");
+    for (size_t k : chunk_sizes(r, t.size(), t.size() <= 48 && all_k)) expect_same("json", "multi-value-stream", ref, multi_stream(t, k), hx, "k=" + std::to_string(k));
+}
+
 // ------------------------------------------------------------------ CSV deliveries
 static csv::csv_options g_copts; static std::string g_copt_desc;
 static Outcome csv_ref(const std::string& t) { Outcome o; Recorder rec; std::error_code ec; csv::csv_string_reader rd(t, rec, g_copts); rd.read(ec); o.status = ec_name(ec); o.ev = std::move(rec.ev); return norm(o); }
@@ -372,6 +386,17 @@ int main(int argc, char** argv) {
             H.note_distinct(hash_str(t, 77)); set_flight_desc("csv " + hex(t).substr(0, 1500));
             check_csv(t, r, thorough || c % 4 == 0);
             if (H.sample_seen < 12 || r.chance(1, 1000)) H.sample(J().str("format", "csv").str("text", t.substr(0, 200)).done()); else ++H.sample_seen;
+        } else if (mode == 3 && r.chance(1, 3)) {       // several JSON values in one text, separated and followed by white space
+            std::string t; size_t nv = 1 + r.below(4); static const char* sep[] = {" ", "\n", "\r\n", "  ", "\t", " \n \n", ""};
+            GenCfg gm = g; gm.max_depth = 2;
+            for (size_t i = 0; i < nv; ++i) { json v = gen_value<json>(r, gm); std::string one; v.dump(one); if (i && (isdigit((unsigned char)one[0]) || one[0] == '-' || isalpha((unsigned char)one[0])) && (t.empty() || !isspace((unsigned char)t.back()))) t += " "; t += one; t += r.pick(sep); }
+            if (r.chance(1, 4)) t += r.pick(sep);
+            if (r.chance(1, 6)) mutate_text(t, r);
+            if (t.size() > 300) t.resize(300);
+            bool detect = t.size() >= 2 && ((unsigned char)t[0] >= 0xef); for (size_t i = 0; i < t.size() && i < 4; ++i) if (t[i] == 0) detect = true;
+            if (detect) { H.count_("json.excluded_encoding_detection_prefix"); return; }
+            H.note_distinct(hash_str(t, 99)); set_flight_desc("json-multi " + hex(t).substr(0, 1500));
+            check_multi(t, r, thorough || c % 2 == 0);
         } else if (mode < 5) {                          // JSON text
             std::string t;
             if (r.chance(1, 5)) t = r.pick(stress);
